@@ -162,7 +162,11 @@ func (m *Machine) execStmt(fr *frame, s *Stmt) flow {
 	m.step(s)
 	switch s.K {
 	case SVar:
-		fr.vars[s.Slot] = m.P.ZeroValue(s.Typ)
+		zv := m.P.ZeroValue(s.Typ)
+		if zv.K == VArray {
+			zv.A.owner = fr
+		}
+		fr.vars[s.Slot] = zv
 		m.lastEvent = Event{"stmt", s}
 		return flow{}
 	case SAssign:
@@ -195,6 +199,8 @@ func (m *Machine) execStmt(fr *frame, s *Stmt) flow {
 		return flow{}
 	case SIOManip:
 		return m.execIOManip(fr, s)
+	case SIterate:
+		return m.execIterate(fr, s)
 	}
 	m.bug("unhandled statement kind %d", s.K)
 	return flow{}
@@ -307,7 +313,7 @@ func (m *Machine) assignTo(fr *frame, s *Stmt, lhs *Expr, v Value) {
 	case OLocal, OArg:
 		old := fr.vars[lhs.Slot]
 		if old.K == VArray && v.K == VArray {
-			copy(old.A.E, v.A.E)
+			m.copyArray(lhs, old, v)
 			return
 		}
 		fr.vars[lhs.Slot] = v
@@ -322,17 +328,26 @@ func (m *Machine) assignTo(fr *frame, s *Stmt, lhs *Expr, v Value) {
 		}
 		old := obj.F[lhs.Slot]
 		if old.K == VArray && v.K == VArray {
-			copy(old.A.E, v.A.E)
+			m.copyArray(lhs, old, v)
 			return
 		}
+		m.pureStore(lhs, nil, true)
 		obj.F[lhs.Slot] = v
 	case OIndex:
 		base := m.eval(fr, lhs.L)
 		i := m.eval(fr, lhs.R).I
 		arr, lo, hi := m.view(lhs, base)
+		es := elemSize(lhs.L.Typ)
 		n, small := i.Int64()
-		if !small || n < 0 || n >= int64(hi-lo) {
-			m.fail("index-oob", lhs, "index %s outside [0, %d)", i, hi-lo)
+		if !small || n < 0 || n >= int64((hi-lo)/es) {
+			m.fail("index-oob", lhs, "index %s outside [0, %d)", i, (hi-lo)/es)
+		}
+		if es > 1 {
+			if v.K != VArray {
+				m.bug("array-valued element store of a non-array at line %d", s.Line)
+			}
+			m.copyArray(lhs, Value{K: VArray, A: arr, Lo: lo + int(n)*es, Hi: lo + (int(n)+1)*es}, v)
+			return
 		}
 		if v.K != VInt {
 			m.bug("array element store of non-integer at line %d", s.Line)
@@ -358,7 +373,8 @@ func (m *Machine) execAssign(fr *frame, s *Stmt) flow {
 	if s.AOp == t.IDEq {
 		v := m.eval(fr, s.RHS)
 		if v.K == VArray {
-			v = Value{K: VArray, A: &Array{E: append([]Int(nil), v.A.E...), ET: v.A.ET}}
+			lo, hi := arrView(v)
+			v = Value{K: VArray, A: &Array{E: append([]Int(nil), v.A.E[lo:hi]...), ET: v.A.ET}}
 		}
 		m.storeCheck(s, s.RHS, v, s.LHS.Typ)
 		if s.LHS.CheckB && s.LHS.Op == OIndex {
@@ -454,9 +470,42 @@ func (m *Machine) newFrame(fn *Func, obj *Object, args []Value) *frame {
 	nf := &frame{fn: fn, this: obj, vars: make([]Value, fn.nslots)}
 	copy(nf.vars, args)
 	for i, l := range fn.Locals {
-		nf.vars[len(fn.Args)+i] = m.P.ZeroValue(l.Typ)
+		v := m.P.ZeroValue(l.Typ)
+		if v.K == VArray {
+			v.A.owner = nf
+		}
+		nf.vars[len(fn.Args)+i] = v
 	}
 	return nf
+}
+
+// copyArray implements array assignment (value semantics) element by element.
+func (m *Machine) copyArray(e *Expr, dst, src Value) {
+	dlo, dhi := arrView(dst)
+	slo, shi := arrView(src)
+	if dhi-dlo != shi-slo {
+		m.bug("array assignment of different sizes in %s", e.String())
+	}
+	tmp := append([]Int(nil), src.A.E[slo:shi]...)
+	for i, x := range tmp {
+		m.storeElem(e, dst.A, dlo+i, x)
+	}
+}
+
+// pureStore is the purity monitor (C10): inside a method declared pure, a
+// store into the receiver (a field, or an array that is part of a receiver)
+// or into memory the frame does not own (a caller buffer, another frame's
+// local array) is a violation.
+func (m *Machine) pureStore(e *Expr, arr *Array, field bool) {
+	if !m.CheckPure || m.curFrame == nil || !m.curFrame.fn.Effect.Pure() {
+		return
+	}
+	switch {
+	case field || (arr != nil && arr.Recv):
+		m.fail("pure-wrote-receiver", e, "a store into the receiver inside the pure method %s", m.curFrame.fn.QName())
+	case arr != nil && arr.owner != m.curFrame:
+		m.fail("pure-wrote-buffer", e, "a store into memory not owned by the pure method %s", m.curFrame.fn.QName())
+	}
 }
 
 // runFrame runs (or resumes, when cs != nil) a function body. It returns the
@@ -495,7 +544,32 @@ func (m *Machine) runFrame(nf *frame, cs *CoroState) (ret Value, suspended bool)
 		m.lastEvent = Event{"entry", nil}
 	}
 	m.suspended = nil
+	// Purity monitor, call level (C10): the receiver and every buffer handed to
+	// a pure method must be bit-for-bit unchanged when it returns.
+	checkPure := m.CheckPure && fn.Effect.Pure() && m.pure == 0
+	var recvBefore uint64
+	var bufBefore []uint64
+	if checkPure {
+		m.PureCalls++
+		if nf.this != nil {
+			recvBefore = nf.this.Hash()
+		}
+		bufBefore = bufferHashes(nf.vars[:len(fn.Args)])
+	}
 	fl := m.execBlock(nf, fn.Body, fn.EndLine, fn.Term)
+	if checkPure {
+		if nf.this != nil && nf.this.Hash() != recvBefore {
+			m.curStmt = savedStmt
+			m.fail("pure-wrote-receiver", nil, "the receiver changed during a call of the pure method %s", fn.QName())
+		}
+		after := bufferHashes(nf.vars[:len(fn.Args)])
+		for i := range after {
+			if i < len(bufBefore) && after[i] != bufBefore[i] {
+				m.curStmt = savedStmt
+				m.fail("pure-wrote-buffer", nil, "a buffer argument changed during a call of the pure method %s", fn.QName())
+			}
+		}
+	}
 	susp := m.suspended
 	m.curStmt, m.where, m.resume, m.suspended = savedStmt, savedWhere, savedResume, savedSusp
 	k := 0
@@ -656,4 +730,90 @@ func ioParamType(e *Expr, i int) *Type {
 		return &Type{K: TInt, Bits: 64, Min: lo, Max: hi, Str: "base.u64"}
 	}
 	return nil
+}
+
+// bufferHashes hashes the memory behind by-reference arguments (the whole
+// backing store of slices and pointers-to-arrays, the data and indexes of I/O buffers).
+func bufferHashes(args []Value) []uint64 {
+	var out []uint64
+	for _, v := range args {
+		h := uint64(14695981039346656037)
+		switch {
+		case (v.K == VSlice || v.K == VPtr || v.K == VArray) && v.A != nil:
+			for _, x := range v.A.E {
+				h = x.Hash64(h)
+			}
+		case v.K == VIO && v.IO != nil:
+			b := v.IO
+			h = I64(int64(b.RI)).Hash64(h)
+			h = I64(int64(b.WI)).Hash64(h)
+			for _, x := range b.Data {
+				h ^= uint64(x)
+				h *= 1099511628211
+			}
+		default:
+			continue
+		}
+		out = append(out, h)
+	}
+	return out
+}
+
+// execIterate: the sources are evaluated once; all variables walk over the
+// first min(length) elements in lock step. For each round in order, while at
+// least `length` elements remain: every variable is bound to the window of
+// exactly `length` elements at the current position, the body runs, the
+// position advances by `advance` (`unroll` has no semantic effect). Afterwards
+// the variables are empty slices at the final position.
+func (m *Machine) execIterate(fr *frame, s *Stmt) flow {
+	if m.resume != nil {
+		m.bug("resumption inside iterate at line %d", s.Line)
+	}
+	type src struct {
+		arr    *Array
+		lo, es int
+	}
+	srcs := make([]src, len(s.IterSrcs))
+	n := -1
+	for k, e := range s.IterSrcs {
+		v := m.eval(fr, e)
+		arr, lo, hi := (*Array)(nil), 0, 0
+		if v.K == VSlice && v.A == nil {
+			// the nil slice
+		} else {
+			arr, lo, hi = m.view(e, v)
+		}
+		es := elemSize(e.Typ)
+		srcs[k] = src{arr, lo, es}
+		if c := (hi - lo) / es; n < 0 || c < n {
+			n = c
+		}
+	}
+	bind := func(pos, length int) {
+		for k, lv := range s.IterVars {
+			sr := srcs[k]
+			fr.vars[lv.Slot] = Value{K: VSlice, A: sr.arr, Lo: sr.lo + pos*sr.es, Hi: sr.lo + (pos+length)*sr.es}
+		}
+	}
+	pos := 0
+	first := true
+	for _, rd := range s.Rounds {
+		for n-pos >= rd.Length {
+			bind(pos, rd.Length)
+			if first {
+				m.lastEvent, first = Event{"iterate-enter", s}, false
+			} else {
+				m.lastEvent = Event{"iterate-back", s}
+			}
+			fl := m.execBlock(fr, rd.Body, rd.BodyEnd, rd.BodyTerm)
+			if fl.c != cNormal {
+				return fl
+			}
+			pos += rd.Advance
+			m.step(s)
+		}
+	}
+	bind(pos, 0)
+	m.lastEvent = Event{"iterate-exit", s}
+	return flow{}
 }
